@@ -31,7 +31,7 @@ RELAY = {
     "C12": dict(focus=['comps'], invs=["Ok_C12"], mc=[("comps", ["P_C12"])], need=dict(comp_changes=30, comp_refused=20)),
     "C13": dict(focus=['comps'], invs=["Ok_C13"], mc=[("comps", ["P_C13"])], need=dict(comp_relays=20, subs=20)),
     "C14": dict(wire=True, focus=['custom'], invs=["Ok_C14", "Ok_C14b"], mc=[("custom", ["P_C14"])], need=dict(custom=40, custom_too_large=5, custom_targeted=10)),
-    "C16": dict(focus=['mods'], invs=["Ok_C16"], mc=[("mods", ["P_C16"])], need=dict(action_ok=10, action_refused=10, asset_ok=10)),
+    "C16": dict(focus=['mods'], invs=["Ok_C16"], mc=[("mods", ["P_C16"])], need=dict(action_ok=10, action_refused=10, action_equal_ts_replace=3, asset_ok=10)),
 }
 
 
@@ -217,7 +217,7 @@ def trace_stats(trace_files):
     st = dict(histories=0, steps=0, kinds={}, refused=0, not_joined=0, relays=0, departures=0, departures_with_entities=0,
               switches=0, joins_existing=0, sessions_created=0, sessions_ended=0, entity_adds=0, pose_ok=0, pose_dropped=0,
               ticks=0, comp_changes=0, comp_refused=0, comp_relays=0, subs=0, custom=0, custom_too_large=0, custom_targeted=0,
-              action_ok=0, action_refused=0, asset_ok=0, foreign_attempts=0, multi_session_steps=0, panics=0)
+              action_ok=0, action_refused=0, action_equal_ts_replace=0, asset_ok=0, foreign_attempts=0, multi_session_steps=0, panics=0)
     for tf in trace_files:
         prev = None
         for line in open(tf):
@@ -287,6 +287,12 @@ def trace_stats(trace_files):
                 if k == "Action" and p0["sid"] != 0:
                     if any(m["t"] == "ACTION_RESPONSE" for m in mine):
                         st["action_ok"] += 1
+                        # an accepted action with exactly the stored timestamp and other data: "equal or newer replaces"
+                        for s0 in (prev["sess"] if prev else []):
+                            if s0["sid"] == p0["sid"]:
+                                for e0, n0, t0, d0 in s0.get("acts", []):
+                                    if e0 == req.get("eid") and n0 == req.get("name") and t0 == req.get("ats") and d0 != req.get("data"):
+                                        st["action_equal_ts_replace"] += 1
                     elif err:
                         st["action_refused"] += 1
                 if k == "AssetAdd" and any(m["t"] == "ASSET_ADD_RESPONSE" for m in mine):
